@@ -180,3 +180,16 @@ Lemma acquire_timeout_example :
   lock_ok acq_checked = true /\ data_ok CGlobal acq_checked = true /\
   out_of (run AllFaults acq_checked [true]) = ORaise /\ count_acq (evs_of (run AllFaults acq_checked [true])) = 0%nat.
 Proof. vm_compute. repeat split. Qed.
+
+(* a statement known to raise (del d[k] of a possibly absent key) is a fault point also OUTSIDE try/finally:
+   acquire; if ..: pop graph; del counter entry; release  -- the checker finds the path that raises with the lock held *)
+Definition tidy_del_graph : stmt :=
+  SSeq (SAcq 1)
+    (SSeq (SIf 2 XRead FNever CFree (SSeq (SAct 3 (XDel CArg) FNever) (SAct 4 (XDelCtr CArg) FMay)) SSkip)
+          (SRel 5)).
+Lemma raising_outside_try_example :
+  lock_ok tidy_del_graph = false /\ find_bad lockA AllFaults 0 tidy_del_graph 6 2 = Some [true; true] /\
+  out_of (run AllFaults tidy_del_graph [true; true]) = ORaise /\
+  map ev_code (evs_of (run AllFaults tidy_del_graph [true; true])) = [(1, 1); (2, 0); (3, 0); (4, 0)] /\
+  balanced (evs_of (run AllFaults tidy_del_graph [true; true])) = false.
+Proof. vm_compute. repeat split. Qed.
